@@ -78,6 +78,7 @@ type TypeEnv struct {
 	maps    map[string]*mapInfo
 	ghosts  map[string][]string
 	boxes   map[string]bool
+	usesLists bool
 }
 
 type structInfo struct {
